@@ -254,9 +254,14 @@ class KroneckerProductLinearOperator(LinearOperator):
     def _inv_matmul(self, right_tensor, left_tensor=None):
         # if _inv_matmul is called, we ignore the eigenvalue handling
         # this is efficient because of the structure of the lazy tensor
+        is_vector = right_tensor.ndim == 1
+        if is_vector:
+            right_tensor = right_tensor.unsqueeze(-1)
         res = self._solve(rhs=right_tensor)
         if left_tensor is not None:
             res = left_tensor @ res
+        if is_vector:
+            res = res.squeeze(-1)
         return res
 
     def _logdet(self: Float[LinearOperator, "*batch M N"]) -> Float[Tensor, " *batch"]:
